@@ -3,8 +3,8 @@
    Used by C14 (keys enforced exactly) and C13 (DML matches a reference table model).
 
    The model mirrors the code AS IT IS:
-     - pkTableEditAccumulator keys its pending adds / deletes by getRowKey = the concatenation of the %v rendering of
-       the primary key values WITHOUT a separator;
+     - pkTableEditAccumulator keys its pending adds / deletes by getRowKey = the concatenation of the length-prefixed %v
+       renderings of the primary key values ("1:12:12" for (1,12); before commit 1b57e874c there was no separator);
      - columnsMatch compares Go values with != (no collation), truncating prefix-indexed strings by BYTES;
      - GetByCols gives up ("not found") as soon as any pending delete matches the probed columns;
      - ApplyEdits = all deletes, then all adds (insertHelper overwrites a stored row with the same primary key), then
@@ -41,17 +41,25 @@ Fixpoint row_eqb (a b : row) : bool :=
   | _, _ => false
   end.
 
-(* ---------- fmt.Sprintf("%v", v) ---------- *)
-Fixpoint digits (fuel : nat) (n : N) (acc : str) : str :=
-  match fuel with
-  | O => acc
-  | S f => let acc' := (48 + n mod 10)%N :: acc in
-           if (n / 10 =? 0)%N then acc' else digits f (n / 10)%N acc'
+(* ---------- fmt.Sprintf("%v", v) / strconv.Itoa ---------- *)
+Fixpoint bytes_of_uint (u : Decimal.uint) : str :=
+  match u with
+  | Decimal.Nil => []
+  | Decimal.D0 u => 48%N :: bytes_of_uint u
+  | Decimal.D1 u => 49%N :: bytes_of_uint u
+  | Decimal.D2 u => 50%N :: bytes_of_uint u
+  | Decimal.D3 u => 51%N :: bytes_of_uint u
+  | Decimal.D4 u => 52%N :: bytes_of_uint u
+  | Decimal.D5 u => 53%N :: bytes_of_uint u
+  | Decimal.D6 u => 54%N :: bytes_of_uint u
+  | Decimal.D7 u => 55%N :: bytes_of_uint u
+  | Decimal.D8 u => 56%N :: bytes_of_uint u
+  | Decimal.D9 u => 57%N :: bytes_of_uint u
   end.
-Definition render_N (n : N) : str := digits (S (N.size_nat n)) n [].
+Definition render_N (n : N) : str := bytes_of_uint (N.to_uint n).
 Definition render_Z (z : Z) : str :=
   match z with
-  | Z0 => [48%N]
+  | Z0 => render_N 0
   | Zpos p => render_N (Npos p)
   | Zneg p => 45%N :: render_N (Npos p)
   end.
@@ -98,8 +106,9 @@ Definition col_coll (sch : schema) (i : nat) : coll := nth i (s_coll sch) CBin.
 Definition proj (cols : list nat) (r : row) : list val := map (col r) cols.
 Definition key (sch : schema) (r : row) : list val := proj (s_pk sch) r.
 
-(* getRowKey *)
-Definition key_str (sch : schema) (r : row) : str := concat (map render (key sch r)).
+(* getRowKey: every key part is written as <decimal length of its %v rendering> ':' <rendering> *)
+Definition key_part (v : val) : str := render_N (N.of_nat (length (render v))) ++ 58%N :: render v.
+Definition key_str (sch : schema) (r : row) : str := concat (map key_part (key sch r)).
 
 (* columnsMatch *)
 Definition trunc (pl : N) (v : val) : val :=
